@@ -29,7 +29,9 @@ RULE = ("Host H (real Zeroconf: 1..2 registered services, an active browser, a s
         "learned after the stream) shows the query scheduler alive; canary 5: a query answered earlier and repeated byte for byte "
         "right after an undecodable datagram is answered again; canary 6: the real announcement still reaches the browser after "
         "a copy with one bit flipped in its type label arrived first (known finding F28) "
-        "within 1.5 s. Distinct = (generator, source class, delivery, handler reached, outcome) classes.")
+        "within 1.5 s. Streams also contain bursts of 2..69 distinct truncated queries from one source followed by silence, and "
+        "every third background lookup gets a valid answer delivered in the loop pass of its deadline. Distinct = (generator, "
+        "source class, delivery, handler reached, outcome) classes.")
 ASSUMPTIONS = ["canary names are unique per run so that earlier fuzz traffic cannot have pre-empted them"]
 
 T1 = "_http._tcp.local."
